@@ -174,11 +174,12 @@ fn solver_level<F: Fam>(spec: &CaseSpec) {
             if v1 != opt || !e1 {
                 if v0 == opt || o0.cutoff_fired {
                     let class = if with.nvars() >= 20 { "large" } else if with.nvars() >= 12 { "medium" } else { "small" };
-                    a.violation(PROP, "solver_value_changed_by_dominance", format!("with the dominance checker the solver reports {v1:?} (exact={e1}); without it {v0:?}; optimum {opt:?}"), J::obj().set("par", J::Bool(cfg.par.is_some())).set("instance_class", J::s(class)), case());
+                    a.violation(PROP, "solver_value_changed_by_dominance", format!("with the dominance checker the solver reports {v1:?} (exact={e1}); without it {v0:?}; optimum {opt:?}"), J::obj().set("par", J::Bool(cfg.par.is_some())).set("instance_class", J::s(class)).set("dominance_queried_by_restricted_compilations", J::Bool(o1.dom_queries_restricted > 0)), case());
                 } else { a.bump("both_wrong_not_this_property", 1); }
             }
             // non trivial: at least one node was discarded by dominance
             a.bump("nodes_discarded_by_dominance", o1.dom_pruned);
+            a.bump("dominance_queries_issued_by_restricted_compilations", o1.dom_queries_restricted);
             a.bump("dominance_queries_in_solver_runs", o1.dom_queries);
             if o1.dom_pruned > 0 {
                 a.nontrivial.insert(hash_of(&(with.ihash(), format!("{:?}{:?}", cfg.json(), spec.variant))));
